@@ -171,19 +171,21 @@ func c20Harness(n int, contents []ycContent, withHash bool) mc.Harness {
 		si := x.All("luma-stride", len(c20StrideExtra))
 		csi := x.All("chroma-stride", len(c20CStrideExtra))
 		endFlush := x.All("plane-placement", 2) == 1
+		dal := x.All("destination-alignment", 3) // the caller's destination slice starts 0, 4 or 16 bytes after a 32-byte boundary
 		c := contents[ci]
-		where := fmt.Sprintf("%dx%d %s origin %v YStride=w+%d CStride=cw+%d planes %s, %s", n, n, ratioName(c20Ratios[ri]), c20Origins[oi], c20StrideExtra[si], c20CStrideExtra[csi],
-			map[bool]string{false: "start-flush", true: "end-flush"}[endFlush], c.name)
+		where := fmt.Sprintf("%dx%d %s origin %v YStride=w+%d CStride=cw+%d planes %s, destination %d bytes past a 32-byte boundary, %s", n, n, ratioName(c20Ratios[ri]), c20Origins[oi], c20StrideExtra[si], c20CStrideExtra[csi],
+			map[bool]string{false: "start-flush", true: "end-flush"}[endFlush], []int{0, 4, 16}[dal], c.name)
 		x.Note("image", where)
-		x.InputID = hashBytes([]byte{byte(n >> 6), byte(ci), byte(ri), byte(oi), byte(si), byte(csi), b2i(endFlush), 0x20})
+		x.InputID = hashBytes([]byte{byte(n >> 6), byte(ci), byte(ri), byte(oi), byte(si), byte(csi), b2i(endFlush), byte(dal), 0x20})
 		m := buildYCbCr(n, c20Ratios[ri], c20Origins[oi], c20StrideExtra[si], c20CStrideExtra[csi], endFlush, c)
 		defer m.free()
 		ref := c20Ref(m.img)
-		d32 := guardmem.Alloc(4*n*n, false, 32)
-		d64 := guardmem.Alloc(8*n*n, false, 32)
+		d32 := guardmem.Alloc(4*n*n+32, false, 32)
+		d64 := guardmem.Alloc(8*n*n+32, false, 32)
 		defer d32.Free()
 		defer d64.Free()
-		p32, p64 := d32.Float32s(), d64.Float64s()
+		k32, k64 := []int{0, 1, 4}[dal], []int{0, 1, 2}[dal]
+		p32, p64 := d32.Float32s()[k32:k32+n*n], d64.Float64s()[k64:k64+n*n]
 		fail := func(fn, kind, msg string) {
 			x.Fail("mismatch|"+fn+"|"+kind, where+": "+fn+": "+msg, map[string]string{"image": where})
 		}
@@ -245,9 +247,10 @@ func c20Harness(n int, contents []ycContent, withHash bool) mc.Harness {
 			return
 		}
 		var dist float64
-		transforms32.ImageToGray(m.img, &p32)
+		a32 := d32.Float32s()[:n*n] // aligned like the pooled buffers the hash functions convert into
+		transforms32.ImageToGray(m.img, &a32)
 		for i := range ref {
-			dist += math.Abs(float64(p32[i]) - ref[i])
+			dist += math.Abs(float64(a32[i]) - ref[i])
 		}
 		low := refLowDCT(ref, n, hf.l)
 		s := append([]float64(nil), low...)
